@@ -444,6 +444,10 @@ int reb_simulation_remove_particle(struct reb_simulation* const r, int index, in
                 r->free_particle_ap(&r->particles[index]);
             }
 		    r->particles[index] = r->particles[r->N];
+            if (r->N_active > (int)r->N){
+                // All particles were active. Keep N_active within the particle array.
+                r->N_active = r->N;
+            }
         }
 	}
 
